@@ -162,7 +162,8 @@ class contentsSet(GenericEquality):
             raise TypeError(f"immutable type {self!r}")
 
         rem = self.remove
-        for x in other:
+        # the argument may be this very set
+        for x in list(other) if other is self else other:
             if x in self:
                 rem(x)
 
